@@ -19,7 +19,7 @@ ASSUMPTIONS = ["scheduling points are source lines of Pool/Worker methods and th
                "a job accepted just before a racing close() may be dropped (the statement's 'starts no further job'); only runs without close require every accepted job to run",
                "a refusal is illegitimate only if accepted-minus-completed(notify_done returned) < THREADPOOL_SIZE at process() entry"]
 REQUIRED_REACH = ["slow_hello_refusals_checked", "pool_resizes_followed", "hook_connections_to_sibling_daemon_served", "schedules_explored", "jobs_executed", "refusals_seen", "closes_completed", "socket_clients_served", "socket_clients_refused", "unix_socket_runs", "proxy_retries_after_refusal", "start_faults_injected", "workers_killed_by_exiting_jobs", "full_pool_refusals_checked"]
-SHARD_TIMEOUT = {"quick": 240, "thorough": 3000}
+SHARD_TIMEOUT = {"quick": 480, "thorough": 3000}
 
 
 class Mon:
